@@ -638,6 +638,7 @@ func c04FuncLookup(w *World, r *Report) {
 	if lf := w.SSAFunc(w.Method("xpath", "CommonLex", "LexName")); lf != nil && len(ssaLoops(lf)) == 0 {
 		sym := NewSym(w)
 		sym.Expand = false
+		sym.ExpandReturns = true // an arm moved into a helper is read through
 		allowed := map[int64]bool{}
 		for _, t := range []string{"FUNC", "TEXTFUNC", "CURRENTFUNC", "DEREFFUNC", "NODETYPE", "ERR"} {
 			allowed[xutilsTok(w, t)] = true
